@@ -14,6 +14,8 @@ package main
 //   * every read returns the expected content/class/metadata/tags of the version it addresses, in every phase.
 
 import (
+	"crypto/md5"
+	"encoding/hex"
 	"strconv"
 	"strings"
 )
@@ -22,6 +24,7 @@ type c14Exp struct {
 	b, k       int
 	dm         bool
 	content    []int
+	mp         bool // ETag is multipart-style (MD5 of the part MD5s, "-n") rather than the MD5 of the body
 	class      string
 	meta, tags int
 }
@@ -32,6 +35,41 @@ type c14Oracle struct {
 	checked int
 	tags    map[string]bool
 	alive   func(int) bool // is the ordinal still a row (harness table)
+	bytesOf func(int) []byte // the bytes of a content id (harness' generator of contents)
+}
+
+// the ETag S3 prescribes for this content sequence
+func (o *c14Oracle) etagOf(x *c14Exp) string {
+	if !x.mp {
+		var all []byte
+		for _, c := range x.content {
+			all = append(all, o.bytesOf(c)...)
+		}
+		sum := md5.Sum(all)
+		return "\"" + hex.EncodeToString(sum[:]) + "\""
+	}
+	var cat []byte
+	for _, c := range x.content {
+		sum := md5.Sum(o.bytesOf(c))
+		cat = append(cat, sum[:]...)
+	}
+	sum := md5.Sum(cat)
+	return "\"" + hex.EncodeToString(sum[:]) + "-" + strconv.Itoa(len(x.content)) + "\""
+}
+
+// a class-routed write: every part row of the new version must name the store the class maps to now
+func (o *c14Oracle) placed(what string, n int, got *c14Obs) {
+	x := o.rows[n]
+	if x == nil || got == nil {
+		return
+	}
+	want := strconv.Itoa(o.mapping[x.class])
+	for _, s := range strings.Split(got.stores, ".") {
+		if s != want && got.stores != "-" {
+			o.failf(what + " of row " + strconv.Itoa(n) + " with class " + x.class + ": part stores " + got.stores + ", the class maps to store " + want)
+			return
+		}
+	}
 }
 
 func c14NewOracle() *c14Oracle {
@@ -93,16 +131,17 @@ func (o *c14Oracle) appendOp(n int, inPlace bool, prev int, b, k, cont int, st s
 			return
 		}
 		cur.content = append(cur.content, cont)
+		cur.mp = true
 		return
 	}
 	o.dropReplacedNull(n, b, k)
 	if cur == nil {
-		o.rows[n] = &c14Exp{b: b, k: k, content: []int{cont}, class: "STANDARD"}
+		o.rows[n] = &c14Exp{b: b, k: k, content: []int{cont}, class: "STANDARD", mp: true}
 		return
 	}
 	// new version in an enabled bucket: its class/metadata/tags are C11's concern (known C11 finding) and are
 	// taken as observed here
-	x := &c14Exp{b: b, k: k, content: append(append([]int{}, cur.content...), cont), class: cur.class, meta: cur.meta, tags: cur.tags}
+	x := &c14Exp{b: b, k: k, content: append(append([]int{}, cur.content...), cont), class: cur.class, meta: cur.meta, tags: cur.tags, mp: true}
 	if after != nil {
 		x.class = after.class
 		x.meta, _ = strconv.Atoi(after.meta)
@@ -117,7 +156,7 @@ func (o *c14Oracle) copy(n, src, db, dk int, cls *string, st string) {
 	}
 	if o.expect("CopyObject", s != nil && !s.dm, st) {
 		o.dropReplacedNull(n, db, dk)
-		o.rows[n] = &c14Exp{b: db, k: dk, content: append([]int{}, s.content...), class: c14ClassOf(cls), meta: s.meta, tags: s.tags}
+		o.rows[n] = &c14Exp{b: db, k: dk, content: append([]int{}, s.content...), class: c14ClassOf(cls), meta: s.meta, tags: s.tags, mp: s.mp}
 	}
 }
 func (o *c14Oracle) delete(gone []int, marker, b, k int, st string) {
@@ -160,6 +199,9 @@ func (o *c14Oracle) checkObs(where string, x *c14Exp, got *c14Obs) {
 	}
 	if got.partsOK != "" {
 		d = append(d, got.partsOK)
+	}
+	if o.bytesOf != nil && got.etag != o.etagOf(x) {
+		d = append(d, "ETag want "+o.etagOf(x)+" got "+got.etag)
 	}
 	if len(d) > 0 {
 		o.failf(where + ": " + strings.Join(d, ", "))
@@ -283,4 +325,46 @@ func (o *c14Oracle) transition(target, b, k int, v string, cls string, im string
 		o.note("transition:moved-though-classes-share-store")
 	}
 	x.class = cls
+}
+
+// CreateMultipartUpload(class) + UploadPart... + CompleteMultipartUpload
+func (o *c14Oracle) multipart(n, b, k int, cls *string, conts []int, st string) {
+	if o.expect("multipart upload", true, st) {
+		o.dropReplacedNull(n, b, k)
+		o.rows[n] = &c14Exp{b: b, k: k, content: append([]int{}, conts...), class: c14ClassOf(cls), mp: true}
+		o.note("multipart")
+	}
+}
+
+// a ranged read of a version must return, per range, exactly the bytes of the full body at [start, min(end,size))
+func (o *c14Oracle) ranges(what string, n int, body []byte, rs [][2]int64, got [][]byte, errc string) {
+	o.checked++
+	size := int64(len(body))
+	valid := true
+	for _, r := range rs {
+		if r[0] >= min(r[1], size) {
+			valid = false
+		}
+	}
+	where := what + " of row " + strconv.Itoa(n)
+	if !valid {
+		if got != nil {
+			o.failf(where + ": an unsatisfiable range was served")
+		}
+		return
+	}
+	if got == nil {
+		o.failf(where + ": ranged read failed with " + errc + " although the full read works")
+		return
+	}
+	if len(got) != len(rs) {
+		o.failf(where + ": " + strconv.Itoa(len(got)) + " readers for " + strconv.Itoa(len(rs)) + " ranges")
+		return
+	}
+	for i, r := range rs {
+		if string(got[i]) != string(body[r[0]:min(r[1], size)]) {
+			o.failf(where + ": range " + strconv.FormatInt(r[0], 10) + "-" + strconv.FormatInt(r[1], 10) + " returned other bytes than the full read")
+		}
+	}
+	o.note("ranged-read")
 }
